@@ -7,8 +7,9 @@ a use of an invalid object into the value `Outcome.ub "<site>"`.  Core Lean only
 
 What is modelled (capi/src/io.rs, capi/src/public.rs):
 
-* `OWNED : RwLock<BTreeMap<usize, Owned>>` — `owned`: address ↦ kind; `owned_into_raw` inserts (overwriting),
-  nothing ever removes; `chewing_free` looks the address up and rebuilds a `CString` / a `Vec<c_ushort>` of the
+* `OWNED : RwLock<BTreeMap<usize, Owned>>` — `owned`: address ↦ kind; `owned_into_raw` inserts (overwriting);
+  `chewing_free` REMOVES the entry of the address (after `fix: chewing_free forgets …`; `stepStale` below keeps the
+  earlier behaviour — look up only — for the recorded refutation) and rebuilds a `CString` / a `Vec<c_ushort>` of the
   registered kind.  `live` is the ghost heap: blocks handed out and not yet released, with their TRUE kind.
 * `cand_iter`, `interval_iter`, `kbcompat_iter` — `Peekable<Box<dyn Iterator>>` over data the iterator OWNS
   (a collected `Vec`, a counter): `PeekVec` = items left + Peekable's one-element cache.
@@ -115,15 +116,32 @@ def Kind.allocates : Kind → Bool
   | .cstring => true
   | .u16slice n => 0 < n
 
-/-- `owned_into_raw` + the ghost heap -/
+/-- `BTreeMap::remove` -/
+def erase (a : Nat) (l : List (Nat × Kind)) : List (Nat × Kind) := l.filter (fun e => e.1 != a)
+
+/-- `owned_into_raw` (`BTreeMap::insert`: replaces an entry of the same address) + the ghost heap -/
 def register (c : Ctx) (addr : Nat) (k : Kind) : Ctx :=
-  { c with owned := (addr, k) :: c.owned,
+  { c with owned := (addr, k) :: erase addr c.owned,
            live := if k.allocates then (addr, k) :: c.live else c.live }
 
 def bool2res (b : Bool) : Res := if b then 1 else 0
 
 /-- inner access of the user-phrase iterator is allowed only on the generation it was created over -/
 def uFresh (c : Ctx) (u : UIter) : Bool := u.epoch == c.epoch
+
+/-- `chewing_free(addr)`.  `removes` = the registry entry is removed (current code) or only looked up (old code). -/
+def freeStep (removes : Bool) (c : Ctx) (addr : Nat) : Outcome (Ctx × Res) :=
+  if addr = 0 then .ok (c, 0)
+  else match lookup addr c.owned with
+    | none => .ok (c, 0)                         -- not a result of the library (or already released): ignored
+    | some k =>
+      let c1 : Ctx := if removes then { c with owned := erase addr c.owned } else c
+      if !k.allocates then .ok (c1, 0)           -- empty u16 slice: `Vec` of capacity 0, nothing to release
+      else match lookup addr c.live with
+        | none => .ub "free-not-live"            -- the registry names a block that is not a live result
+        | some k' =>
+          if k = k' then .ok ({ c1 with live := erase addr c.live }, 0)
+          else .ub "free-kind"                   -- rebuilt with another kind than it was allocated with
 
 def step (c : Ctx) : Op → Outcome (Ctx × Res)
   | .mutate => .ok ({ c with epoch := c.epoch + 1 }, 0)
@@ -188,17 +206,12 @@ def step (c : Ctx) : Op → Outcome (Ctx × Res)
     | some p => let (p', b) := p.next; .ok ({ c with kbt := some p' }, bool2res b)
   -- registry ------------------------------------------------------------------------------------------------
   | .heapGet addr k => .ok (register c addr k, 0)
-  | .free addr =>
-    if addr = 0 then .ok (c, 0)
-    else match lookup addr c.owned with
-      | none => .ok (c, 0)                       -- a pointer the library never handed out: ignored
-      | some k =>
-        if !k.allocates then .ok (c, 0)          -- empty u16 slice: `Vec` of capacity 0, nothing to release
-        else match lookup addr c.live with
-          | none => .ub "free-not-live"          -- released twice (the entry is never removed)
-          | some k' =>
-            if k = k' then .ok ({ c with live := c.live.filter (fun e => e.1 != addr) }, 0)
-            else .ub "free-kind"                 -- rebuilt with another kind than it was allocated with
+  | .free addr => freeStep true c addr
+
+/-- the code before `fix: chewing_free forgets …`: identical, except that `chewing_free` leaves the registry entry -/
+def stepOld (c : Ctx) : Op → Outcome (Ctx × Res)
+  | .free addr => freeStep false c addr
+  | op => step c op
 
 /-- run a history; the index of the first undefined step and its site, or the final state and the results -/
 def run : Ctx → List Op → Outcome (Ctx × List Res)
@@ -229,18 +242,12 @@ def disciplined : Bool → List Op → Bool
   | _, [] => true
   | stale, op :: ops => (!op.usesU || !stale) && disciplined (staleAfter stale op) ops
 
-/-- caller's / allocator's side of the heap contract at one step: the allocator never returns an address that is
-still live (nor NULL); a pointer passed to `chewing_free` is a live result, or was never handed out, or names an
-empty `u16` slice — i.e. a released pointer is not passed a second time -/
+/-- allocator's side of the heap contract at one step: the allocator never returns an address that is still live
+(nor NULL).  `chewing_free` has NO precondition: any pointer may be passed, any number of times. -/
 def heapOk (c : Ctx) : Op → Bool
   | .candString a => a != 0 && (lookup a c.live).isNone
   | .kbString a => a != 0 && (lookup a c.live).isNone
   | .heapGet a _ => a != 0 && (lookup a c.live).isNone
-  | .free a =>
-    (lookup a c.live).isSome ||
-      (match lookup a c.owned with
-       | none => true
-       | some k => !k.allocates)
   | _ => true
 
 /-- the heap contract along a history (evaluated on the model's own states) -/
